@@ -405,6 +405,12 @@ func (p *Parser) printStatement() (StatementPrint, error) {
 		args = append(args, expr)
 		if p.current.Tag == Comma {
 			p.consume(Comma)
+			if p.atStatementEnd() {
+				// a line break (or ';', '}') after a comma of the list ends the
+				// statement, as it did before the bare print repair
+				p.didEndStatement = true
+				return StatementPrint{startToken, args}, nil
+			}
 		} else {
 			break
 		}
